@@ -1,5 +1,5 @@
 """C03 -- a gateway delivers exactly the sent Message sequence for every byte segmentation."""
-import os, struct
+import os, re, struct
 import vlib
 
 NOLIM = 4294967295
@@ -186,6 +186,21 @@ def gen_packet_oracle(rng, kind):
     return head + "|" + ";".join(ops)
 
 
+def gen_tmpl_collision(rng, enc):
+    """templating gateway, Messages whose TemplateHashCode64 collide: the hash is
+    sum_k k*(H(name_k) + count_k*type_k), so {a:T x n1, b:T x n2} collide whenever n1+2*n2 is equal"""
+    names = rng.choice([("a", "b"), ("x", "yy"), ("f1", "f2")])
+    s = rng.choice([5, 6, 7, 9])
+    shapes = [(n1, (s - n1) // 2) for n1 in range(1, s) if (s - n1) % 2 == 0 and (s - n1) // 2 >= 1]
+    bodies = []
+    for _ in range(rng.choice([2, 3, 4, 6])):
+        n1, n2 = rng.choice(shapes)
+        bodies.append(flat_msg(rng.choice([1, 2]), [f_i32(names[0], [rng.randint(1, 99) for _ in range(n1)]),
+                                                   f_i32(names[1], [rng.randint(1, 99) for _ in range(n2)])]))
+    qs = ["q:" + hexs(b) for b in bodies]
+    return "P:%d:%d|" % (enc, NOLIM) + ";".join(interleave(rng, qs, rng.choice([0, 2, 4]), drain(rng, 3)))
+
+
 def le32(n):
     return struct.pack("<I", n & 0xffffffff)
 
@@ -310,6 +325,10 @@ def directed():
             for scr in (ALL, ",".join(["7"] * 400)):
                 tbl = ",".join(hexs(d) for d in deflate_table(enc, [big1, b12, big1, b12, big1])) if kind == "F" else ""
                 out.append("%s:%d:%s:%s|q:%s;q:%s;q:%s;q:%s;q:%s;o:%s:%s;i:%s:%s;o:%s:%s;i:%s:%s" % (kind, enc, ALL, tbl, hexs(big1), hexs(b12), hexs(big1), hexs(b12), hexs(big1), ALL, scr, ALL, scr, ALL, scr, ALL, scr))
+    # templating gateway: two Messages of different shape with the same TemplateHashCode64 ({a:int32x3,b:int32x1} / {a:int32x1,b:int32x2})
+    cA = flat_msg(1, [f_i32("a", [1, 2, 3]), f_i32("b", [4])])
+    cB = flat_msg(1, [f_i32("a", [5]), f_i32("b", [6, 7])])
+    out.append("P:0:%s|q:%s;q:%s;o:%s:%s;i:%s:%s" % (ALL, hexs(cA), hexs(cB), ALL, ",".join([ALL] * 4), ALL, ",".join([ALL] * 8)))
     # packet mode: one text Message, two lines, sent as one packet (PlainTextMessageIOGateway.cpp 28-68)
     out.append("KT:0d0a|q:6162,63;o:%s:1,1;i:%s:1,1" % (ALL, ALL))
     # maxIncoming exactly at / below the body size
@@ -379,11 +398,26 @@ class CHECK(vlib.Check):
                 if enc > 0:
                     out.append(("zlib", gen_codec_oracle(rng, "F", enc)))
                 out.append(("templating-oracle", gen_codec_oracle(rng, "P", enc)))
+        for j in range(12 if tier == "quick" else 100):
+            out.append(("templating-collision", gen_tmpl_collision(rng, rng.choice([0, 0, 6]))))
         for j in range(6 if tier == "quick" else 40):
             for kind in "FTR":
                 out.append(("packet-oracle", gen_packet_oracle(rng, kind)))
         out += [("directed", c) for c in directed()]
         return out
+
+    def signature(self, f):
+        """what fails: for a crash, the MCRASH site if the implementation named one"""
+        import re
+        sig = f.get("signature") or "disagree"
+        det = f.get("detail") or {}
+        err = det.get("stderr", "") if isinstance(det, dict) else ""
+        m = re.search(r"Crash\(\) was called from (\S+)", err)
+        if f.get("kind") == "crash" and m:
+            site = m.group(1)
+            site = site.split("/repo/")[-1] if "/repo/" in site else re.sub(r"^/tmp/wt-[^/]+/", "", site)
+            return "crash: MCRASH at " + site
+        return sig
 
     def nontrivial(self, case):
         return ("q:" in case or "x:" in case) and ";i:" in case
